@@ -22,6 +22,9 @@
 (*              built from bytes of two messages)                                 *)
 (*   raises     well-formed, delivered, but its handler fails: as ok; the failure   *)
 (*              stays inside this one message                                      *)
+(*   junk       randomly mutated / random bytes: nothing is promised for THIS         *)
+(*              connection from here on (any outcome, framing counts as lost);     *)
+(*              everything else - termination, the loop, other connections - is     *)
 (*   nolen      declared length < 8: cannot be skipped, the connection must   *)
 (*              be closed                                                     *)
 (*   partial    a message cut short by end of stream: held, then closed       *)
@@ -32,7 +35,7 @@
 EXTENDS Naturals, Sequences, FiniteSets, TLC
 
 CONSTANTS Conns, Streams    \* Streams: set of functions [Conns -> Seq(class)]
-Classes == {"ok", "raises", "tolerable", "bad", "badlen", "short", "nolen", "partial"}
+Classes == {"ok", "raises", "tolerable", "bad", "badlen", "short", "nolen", "partial", "junk"}
 Good == {"ok", "raises"}
 
 VARIABLES stream,      \* [Conns -> Seq(class)]
@@ -68,21 +71,22 @@ Eof(c) ==
 
 \* decoder outcomes for the next unresolved message of c
 Deliver(c) ==
-  /\ open[c] /\ sync[c] /\ Pending(c) /\ Cls(c) \in {"ok", "raises", "tolerable", "badlen"}
+  /\ open[c] /\ sync[c] /\ Pending(c) /\ Cls(c) \in {"ok", "raises", "tolerable", "badlen", "junk"}
   /\ delivered' = [delivered EXCEPT ![c] = Append(@, nxt[c])]
   /\ nxt' = [nxt EXCEPT ![c] = @ + 1]
-  /\ sync' = [sync EXCEPT ![c] = Cls(c) # "badlen"]    \* exactly the declared bytes: now out of step
+  /\ sync' = [sync EXCEPT ![c] = Cls(c) \notin {"badlen", "junk"}]    \* exactly the declared bytes: now out of step
   /\ UNCHANGED <<stream, fed, open, eof, errors, alive>>
 SkipWithError(c) ==
-  /\ open[c] /\ sync[c] /\ Pending(c) /\ Cls(c) \in {"tolerable", "bad", "badlen", "short"}
+  /\ open[c] /\ sync[c] /\ Pending(c) /\ Cls(c) \in {"tolerable", "bad", "badlen", "short", "junk"}
   /\ errors' = [errors EXCEPT ![c] = @ + 1]
   /\ nxt' = [nxt EXCEPT ![c] = @ + 1]
-  /\ sync' = [sync EXCEPT ![c] = Cls(c) \notin {"badlen", "short"}]
+  /\ sync' = [sync EXCEPT ![c] = Cls(c) \notin {"badlen", "short", "junk"}]
   /\ UNCHANGED <<stream, fed, open, eof, delivered, alive>>
 SkipQuietly(c) ==      \* only where no error reply is defined: a well-formed message nobody handles
-  /\ open[c] /\ sync[c] /\ Pending(c) /\ Cls(c) = "tolerable"
+  /\ open[c] /\ sync[c] /\ Pending(c) /\ Cls(c) \in {"tolerable", "junk"}
   /\ nxt' = [nxt EXCEPT ![c] = @ + 1]
-  /\ UNCHANGED <<stream, fed, open, sync, eof, delivered, errors, alive>>
+  /\ sync' = [sync EXCEPT ![c] = Cls(c) # "junk"]
+  /\ UNCHANGED <<stream, fed, open, eof, delivered, errors, alive>>
 Close(c) ==
   /\ open[c]
   /\ \/ (Pending(c) /\ Cls(c) \notin Good)       \* a message that cannot be processed
@@ -124,5 +128,5 @@ NeverMixed == \A c \in Conns : sync[c] => \A k \in 1..Len(delivered[c]) :
 Settled(c) == \/ ~open[c]
               \/ ~sync[c]
               \/ ~Pending(c)
-              \/ Cls(c) \in {"partial", "badlen"}          \* waiting for bytes that were announced
+              \/ Cls(c) \in {"partial", "badlen", "junk"}  \* waiting for bytes that were announced
 =============================================================================
